@@ -252,4 +252,13 @@ theorem gram_pinv_absorbs_left {m n : ℕ} (A : Matrix (Fin m) (Fin n) ℝ) (Gp 
   have := congrArg transpose hAQ
   rw [transpose_mul, h4] at this
   exact this
+
+/-- C07: Aᵀ A A⁺ = Aᵀ, from the Penrose conditions A A⁺ A = A and (A A⁺)ᵀ = A A⁺. -/
+theorem gram_times_pinv {m n : ℕ} (A : Matrix (Fin m) (Fin n) ℝ) (Ap : Matrix (Fin n) (Fin m) ℝ)
+    (h1 : A * Ap * A = A) (h3 : (A * Ap)ᵀ = A * Ap) : Aᵀ * A * Ap = Aᵀ := by
+  have h : Aᵀ * (A * Ap) = Aᵀ := by
+    have := congrArg transpose h1
+    rw [transpose_mul, h3] at this
+    exact this
+  rw [Matrix.mul_assoc]; exact h
 end ThirdSession
